@@ -437,6 +437,8 @@ def initial_blob(name):
         b = F.deck_out_of_order(3)
     elif name == "non_contiguous":
         b = F.deck_non_contiguous()
+    elif name == "names_1_5_3":
+        b = F.deck_names_1_5_3()
     elif name == "rich":
         b = _rich_deck()
     elif name.startswith("corpus:"):
